@@ -20,7 +20,9 @@ RULE = ("(a) exhaustive: every condition tree with <= N connective nodes (and/or
         "comparison operators with attribute/literal/reflected operands, chained attributes, x.d[k], method calls, "
         "string methods, contains/in_ both ways, @predicate functions, Predicate subclasses, HasType, and_/or_/not_, "
         "&,|,~, n-ary) on 3-6 random objects; (c) API spellings (let vs T(From(d)), entity vs an(x, ...), a vs an, "
-        "several conditions passed to entity). A case is non-trivial when the oracle result is neither empty nor the "
+        "several conditions passed to entity); (d) given domains that hold no instance of the type (empty / other type only) while "
+        "instances exist in the process, results consumed while the consumer is inside a symbolic block, conditions whose "
+        "user method constructs a @symbol object. A case is non-trivial when the oracle result is neither empty nor the "
         "whole domain; distinct = distinct (condition, data, spelling) by structural hash.")
 LEVEL_TEXT = ("Reference-model monitoring at the API boundary: the real query is built and evaluated, its result list is "
               "compared by identity and order with a plain-Python filter of the same domain. All condition trees up to "
@@ -82,7 +84,8 @@ def floors(tier):
             "re:.*@AND\\.R\\.enter": 100, "re:.*@ElseIf\\.R\\.enter": 100, "re:.*@ElseIf\\.L\\.T": 100,
             "re:.*@ElseIf\\.L\\.F": 100, "spelling:direct": 5, "spelling:from": 5,
             "tag:fpred": 5, "tag:cpred": 5, "tag:hastype": 3, "tag:neg>=2": 20, "tag:truth": 20, "tag:in": 20,
-            "tag:has": 20, "re:tag:neg:cmp.*": 60, "domain_kind:E": 100, "domain_kind:Q": 300}
+            "tag:has": 20, "re:tag:neg:cmp.*": 60, "domain_kind:E": 100, "domain_kind:Q": 300,
+            "domain:empty": 100, "domain:other": 100, "consumed_inside_symbolic_block": 500}
 
 
 def cases(spec, ctx):
@@ -103,7 +106,8 @@ def cases(spec, ctx):
         yield {"k": "rand", "world": world, "kind": kind, "cond": cond, "form": form,
                "how": rng.choice(["let", "let", "from"]), "quant": rng.choice(["an", "an", "a"]),
                "split": rng.random() < 0.3, "times": rng.choice([1, 2, 3]), "caching": rng.random() < 0.8,
-               "take_first": rng.choice([0, 0, 0, 1, 2])}
+               "take_first": rng.choice([0, 0, 0, 1, 2]), "in_block": rng.random() < 0.15,
+               "dom_mode": rng.choice(["empty", "other"]) if rng.random() < 0.06 else "normal"}
 
 
 def check_case(case, ctx):
@@ -111,7 +115,16 @@ def check_case(case, ctx):
     kind = case.get("kind", "P")
     world = D.build_world(spec)
     cond = case["cond"]
-    exp = H.expected_rows(world, [kind], cond, [0])
+    dom_mode = case.get("dom_mode", "normal")
+    if dom_mode != "normal":
+        # the given domain holds no instance of the type (instances exist elsewhere in the process): nothing qualifies
+        world[kind] = [] if dom_mode == "empty" else list(world["Q" if kind != "Q" else "P"])
+        exp = []
+    else:
+        exp = H.expected_rows(world, [kind], cond, [0])
+    ctx.cls("domain:" + dom_mode)
+    if case.get("in_block"):
+        ctx.cls("consumed_inside_symbolic_block")
     n_dom = len(world[kind])
     for tag in C.shape_tags(cond):
         ctx.cls("tag:" + tag)
@@ -128,7 +141,8 @@ def check_case(case, ctx):
     try:
         gots = H.run_an(world, [kind], cond, [0], form=case.get("form", "entity"), how=case.get("how", "let"),
                         quant=case.get("quant", "an"), split_top_and=case.get("split", False), times=times,
-                        caching=case.get("caching", True), take_first=case.get("take_first", 0))
+                        caching=case.get("caching", True), take_first=case.get("take_first", 0),
+                        consume_in_block=case.get("in_block", False))
     except Exception as e:
         ctx.fail("EXC", f"{type(e).__name__}: {e}", expected=exp)
         return
